@@ -2,6 +2,7 @@
 #
 # Copyright (c) 2020-2022 Tatu Ylonen.  See file LICENSE and https://ylonen.org
 
+import decimal
 import html
 import math
 import re
@@ -938,11 +939,24 @@ binary_pow_fns: dict[str, BinaryCallable] = {
     "^": math.pow,
 }
 
+def binary_mod_fn(
+    x: Union[int, float], y: Union[int, float]
+) -> Union[int, str]:
+    # MediaWiki truncates both operands to integers and the result takes
+    # the sign of the dividend (PHP's % operator), unlike Python's %
+    x = math.trunc(x)
+    y = math.trunc(y)
+    if y == 0:
+        return "Divide by zero"
+    ret = abs(x) % abs(y)
+    return -ret if x < 0 else ret
+
+
 binary_mul_fns: dict[str, BinaryCallable] = {
     "*": lambda x, y: x * y,
     "/": lambda x, y: "Divide by zero" if y == 0 else x / y,
     "div": lambda x, y: "Divide by zero" if y == 0 else x / y,
-    "mod": lambda x, y: "Divide by zero" if y == 0 else x % y,
+    "mod": binary_mod_fn,
 }
 
 binary_add_fns: dict[str, BinaryCallable] = {
@@ -950,8 +964,25 @@ binary_add_fns: dict[str, BinaryCallable] = {
     "-": lambda x, y: x - y,
 }
 
+def binary_round_fn(
+    x: Union[int, float], y: Union[int, float]
+) -> Union[int, float]:
+    # MediaWiki rounds half away from zero (Python's round() rounds half to
+    # even) and truncates the number of digits to an integer
+    digits = math.trunc(y)
+    if (isinstance(x, int) and digits >= 0) or digits > 340:
+        return x  # nothing to round (a float has no digits beyond 1e-324)
+    if digits < -340:
+        return 0
+    ctx = decimal.Context(prec=1000, rounding=decimal.ROUND_HALF_UP)
+    ret = ctx.quantize(
+        decimal.Decimal(repr(x)), decimal.Decimal(1).scaleb(-digits)
+    )
+    return int(ret) if digits <= 0 else float(ret)
+
+
 binary_round_fns: dict[str, BinaryCallable] = {
-    "round": round,  # type:ignore
+    "round": binary_round_fn,
 }
 
 binary_cmp_fns: dict[str, BinaryCallable] = {
